@@ -246,8 +246,11 @@ def natural_loops(fn):
     """List of (header, body set) for every back edge t->h with h dom t."""
     dom = dominators(fn)
     preds = fn.preds()
+    live = fn.reachable_from(fn.entry)
     out = []
     for b in fn.blocks.values():
+        if b.id not in live:
+            continue  # e.g. the pruned back edge of a do{}while(0) macro body
         for h in b.succ_ids():
             if h in dom.get(b.id, ()):
                 body = {h, b.id}
@@ -257,7 +260,7 @@ def natural_loops(fn):
                     if x == h:
                         continue
                     for p in preds.get(x, []):
-                        if p not in body:
+                        if p not in body and p in live:
                             body.add(p)
                             st.append(p)
                 out.append((h, body))
